@@ -5,7 +5,7 @@ CONSTANTS
   MaxB = 3
   MaxRows = 5
   Ops <- ArithOps
-  Variant = "naive"
+  Variant = "chan"
   Depth = 0
 INVARIANT MomentsDef
 INVARIANT CountDef
